@@ -11,6 +11,8 @@
 // Matrix33::rotate, which post-multiplies, after translate, so the translation comes back as t*R. A wrong
 // translation that equals t*R' (within the linear tolerance) is reported under the site
 // "...translation.comes-back-rotated-by-r"; any other wrong translation under "...translation".
+// Also: 1e-30 scales (may be reported or decomposed, never decomposed wrongly) and every singular 2x2 part over {-1,0,1,2}
+// without a zero row (singular2d below).
 #include "c12.hpp"
 
 namespace c12 {
@@ -37,11 +39,14 @@ template <class T> static Matrix33<T> lib33 (const M2& lin, const LD t[2])
 struct Tally2
 {
     long long cases = 0, transitions = 0, refl = 0, graded = 0, sheared = 0, rot_and_trans = 0, generic = 0, degenerate = 0;
+    long long tiny = 0, tiny_reported = 0, sing_exact = 0, sing_residue = 0, sing_residue_reported = 0, sing_residue_decomposed = 0;
     double    w_recompose = 0, w_ortho = 0;
     void merge (const Tally2& o)
     {
         cases += o.cases; transitions += o.transitions; refl += o.refl; graded += o.graded; sheared += o.sheared; rot_and_trans += o.rot_and_trans;
         generic += o.generic; degenerate += o.degenerate;
+        tiny += o.tiny; tiny_reported += o.tiny_reported; sing_exact += o.sing_exact; sing_residue += o.sing_residue;
+        sing_residue_reported += o.sing_residue_reported; sing_residue_decomposed += o.sing_residue_decomposed;
         w_recompose = std::max (w_recompose, o.w_recompose); w_ortho = std::max (w_ortho, o.w_ortho);
     }
 };
@@ -80,7 +85,9 @@ template <class T> struct Shrt2d
         if (!frameOK (got)) R ().fail (site + ".affine-frame", in (), "last column (0,0,1)", ref::fmtLib<3> (got));
     }
 
-    template <class TagF> void regular (const Shrt2& f, TagF&& tagf, Tally2& t) const
+    // mayReport: a 1e-30 scale may legitimately be reported as degenerate instead of decomposed (as in 3-D); if it is
+    // decomposed, every relation below holds with the usual bounds (the rows are processed relative to their own length)
+    template <class TagF> void regular (const Shrt2& f, TagF&& tagf, Tally2& t, bool mayReport = false) const
     {
         const M33 M    = lib33<T> (lin2 (f), f.t);
         const M2  Mlin = ref::fromLib<2> (M);
@@ -99,6 +106,14 @@ template <class T> struct Shrt2d
         T    h = 9, r = 9;
         bool ok = false;
         try { ok = extractSHRT (M, s, h, r, tr, false); } catch (...) {}
+        if (!ok && mayReport)
+        {
+            ++t.tiny_reported;
+            bool thrown = false;
+            try { V2 a, d; T b, c; extractSHRT (M, a, b, c, d, true); } catch (const std::domain_error&) { thrown = true; } catch (...) {}
+            if (!thrown) R ().fail ("extractSHRT(Matrix33).exc-true-vs-exc-false", in (), "std::domain_error (exc=false returned false)", "no domain_error");
+            return;
+        }
         if (!ok) { R ().fail ("extractSHRT(Matrix33).regular-matrix-reported-degenerate", in (), "true", "false/throw"); return; }
         {
             LD e = recomposeErr (s, h, ref::rot2 (r), Mlin);
@@ -216,6 +231,82 @@ template <class T> struct Shrt2d
     }
 };
 
+// ---- exactly singular 2x2 linear part without a zero row (rows over {-1,0,1,2}, row 1 parallel to row 0); see the 3-D
+// counterpart in c12_shrt3d.hpp for the reasoning. The extracted scale.y is exactly zero, with no rounding anywhere, when
+// row 0 lies along a coordinate axis; otherwise a rounding residue may survive and the case is only held to consistency.
+template <class T> static void singular2d (const int d[4], Tally2& t)
+{
+    typedef Matrix33<T> M33;
+    typedef Vec2<T>     V2;
+    M33 M;
+    for (int i = 0; i < 2; ++i) for (int j = 0; j < 2; ++j) M[i][j] = (T) d[2 * i + j];
+    M[2][0] = 3; M[2][1] = -5;
+    const bool  exact = (d[0] == 0) != (d[1] == 0);
+    std::string in    = "T=" + std::string (ref::tname<T> ()) + " M=" + ref::fmtLib<3> (M);
+    ++t.cases;
+    (exact ? t.sing_exact : t.sing_residue)++;
+    static const char* const FN[8] = {"extractSHRT(Matrix33)", "extractScaling(Matrix33)", "extractScalingAndShear(Matrix33)", "extractAndRemoveScalingAndShear(Matrix33)",
+                                      "sansScaling(Matrix33)", "removeScaling(Matrix33)", "sansScalingAndShear(Matrix33)", "removeScalingAndShear(Matrix33)"};
+    bool rep[8], untouched[8];
+    for (int i = 0; i < 8; ++i) untouched[i] = true;
+    V2  s, tr;
+    T   h = 9, r = 9;
+    M33 w;
+    try
+    {
+        rep[0] = !extractSHRT (M, s, h, r, tr, false);
+        rep[1] = !extractScaling (M, s, false);
+        rep[2] = !extractScalingAndShear (M, s, h, false);
+        w = M; rep[3] = !extractAndRemoveScalingAndShear (w, s, h, false); untouched[3] = sameMat<3> (w, M);
+        rep[4] = sameMat<3> (sansScaling (M, false), M); // a returned H*R*T has determinant 1, the input 0
+        w = M; rep[5] = !removeScaling (w, false); untouched[5] = sameMat<3> (w, M);
+        rep[6] = sameMat<3> (sansScalingAndShear (M, false), M);
+        w = M; rep[7] = !removeScalingAndShear (w, false); untouched[7] = sameMat<3> (w, M);
+    }
+    catch (...) { R ().fail ("singular-matrix(Matrix33).exc-false-throws", in); return; }
+    bool agree = true;
+    for (int i = 1; i < 8; ++i) agree = agree && rep[i] == rep[0];
+    if (!agree)
+    {
+        std::string g;
+        for (int i = 0; i < 8; ++i) g += std::string (i ? " " : "") + FN[i] + "=" + (rep[i] ? "reported" : "decomposed");
+        R ().fail ("singular-matrix(Matrix33).entry-points-disagree", in, "one answer for one matrix", g);
+    }
+    for (int i = 0; i < 8; ++i)
+    {
+        if (rep[i] && !untouched[i]) R ().fail (std::string (FN[i]) + ".singular-matrix.reported-but-matrix-modified", in, "false, m unchanged");
+        if (exact && !rep[i]) R ().fail (std::string (FN[i]) + ".exactly-zero-scale-after-orthogonalisation-not-reported", in, "reported (exc=false)", vf::Msg () << "decomposed; s=" << fmtVec (s) << " h=" << h);
+    }
+    auto thrown = [&] (int i) -> int {
+        try
+        {
+            switch (i)
+            {
+                case 0: extractSHRT (M, s, h, r, tr, true); break;
+                case 1: extractScaling (M, s); break;
+                case 2: extractScalingAndShear (M, s, h); break;
+                case 3: w = M; extractAndRemoveScalingAndShear (w, s, h); break;
+                case 4: sansScaling (M); break;
+                case 5: w = M; removeScaling (w); break;
+                case 6: sansScalingAndShear (M); break;
+                default: w = M; removeScalingAndShear (w); break;
+            }
+            return 0;
+        }
+        catch (const std::domain_error&) { return 1; }
+        catch (...) { return 2; }
+    };
+    for (int i = 0; i < 8; ++i)
+    {
+        int th = thrown (i);
+        if (th == 2) R ().fail (std::string (FN[i]) + ".singular-matrix.exc-true-vs-exc-false", in, "std::domain_error or a normal return", "a different exception");
+        else if ((th == 1) != rep[i]) R ().fail (std::string (FN[i]) + ".singular-matrix.exc-true-vs-exc-false", in, rep[i] ? "std::domain_error (exc=false reported)" : "normal return (exc=false decomposed)", th ? "std::domain_error" : "returned normally");
+        if (exact && th != 1) R ().fail (std::string (FN[i]) + ".exactly-zero-scale-after-orthogonalisation-not-reported", in, "std::domain_error", "returned normally");
+    }
+    if (!exact) (rep[0] ? t.sing_residue_reported : t.sing_residue_decomposed)++;
+    t.transitions += 16;
+}
+
 static const LD SC2[8] = {1, -1, 3, -3, 0.5L, -0.25L, 0.015625L, -0.000244140625L};
 static const LD SH2[5] = {-1, 0, 1, 0.375L, -2.5L};
 
@@ -274,6 +365,31 @@ template <class T> static bool run2d (Tally2& G)
                 chk.degenerate (f, tagOf (f), G);
             }
     }
+    // 1e-30 scales (as in 3-D): may be reported or decomposed, never decomposed wrongly
+    static const LD ST[3] = {1e-30L, 1, -2};
+    for (int si = 0; si < 9; ++si)
+    {
+        int sd[2];
+        ex::decode ((uint64_t) si, 3, 2, sd);
+        if (sd[0] != 0 && sd[1] != 0) continue;
+        for (int hi_ = 0; hi_ < 5; ++hi_)
+            for (int k = -12; k <= 12; ++k)
+            {
+                Shrt2 f;
+                f.s[0] = ST[sd[0]]; f.s[1] = ST[sd[1]]; f.xy = SH2[hi_]; f.th = k * ref::PI_LD / 6; f.t[0] = 3; f.t[1] = 5;
+                ++G.tiny;
+                chk.regular (f, [&] { return tagOf (f); }, G, true);
+            }
+    }
+    // exactly singular linear parts without a zero row
+    for (int i = 0; i < 256; ++i)
+    {
+        int d[4];
+        ex::decode ((uint64_t) i, 4, 4, d, -1);
+        if ((d[0] == 0 && d[1] == 0) || (d[2] == 0 && d[3] == 0)) continue;
+        if (d[0] * d[3] - d[1] * d[2] != 0) continue;
+        singular2d<T> (d, G);
+    }
     R ().note_max (std::string ("worst 2-D recomposition error / (cond eps |M|) (") + ref::tname<T> () + ")", G.w_recompose);
     R ().note_max (std::string ("worst 2-D residual-rotation orthonormality (eps, ") + ref::tname<T> () + ")", G.w_ortho);
     return ok;
@@ -294,8 +410,14 @@ void stage_shrt2d ()
     R ().cls ("shrt2d.rotation-and-translation-both-non-trivial", G.rot_and_trans);
     R ().cls ("shrt2d.zero-scale(guard fires)", G.degenerate);
     R ().cls ("shrt2d.plain.generic", G.generic);
+    R ().cls ("shrt2d.scale-1e-30", G.tiny);
+    R ().cls ("shrt2d.singular-no-zero-row.exactly-zero-scale-after-orthogonalisation(guard must fire)", G.sing_exact);
+    R ().cls ("shrt2d.singular-no-zero-row.rounding-residue-scale(counted, held to consistency only)", G.sing_residue);
+    R ().add ("tiny_scale_reported_as_degenerate(2-D)", G.tiny_reported);
+    R ().add ("singular_rounding_residue_reported(2-D, not judged)", G.sing_residue_reported);
+    R ().add ("singular_rounding_residue_decomposed(2-D, not judged)", G.sing_residue_decomposed);
     R ().sample ("2-D: s=(1,1) xy=0 r=0.7 t=(3,5): sansScaling must return translation (3,5); t*R = (-0.927,5.757)");
-    std::string b = "8^2 scales x 5 shears x k*pi/6 (k in [-12,12]" + std::string (R ().thorough () ? ", plus b*pi/2 +- 10^-j" : "") + ") x L(2)^2 translations, float and double; zero scales reported by all eight entry points";
+    std::string b = "8^2 scales x 5 shears x k*pi/6 (k in [-12,12]" + std::string (R ().thorough () ? ", plus b*pi/2 +- 10^-j" : "") + ") x L(2)^2 translations, float and double; zero scales reported by all eight entry points; 1e-30 scales; all singular 2x2 parts over {-1,0,1,2} without a zero row";
     if (ok) R ().stage_done (b); else R ().stage_partial (b);
 }
 
